@@ -85,6 +85,8 @@ pub struct Cfg {
     /// clusters that may be non-bad in a ballast volume (None = scan the whole FAT)
     pub candidates: Option<Arc<Vec<u32>>>,
     pub unicode: bool,
+    /// reference model of a pre-populated base image
+    pub model0: Option<Arc<Model>>,
 }
 
 impl Cfg {
@@ -97,6 +99,7 @@ impl Cfg {
             short: Short::Exact,
             candidates: None,
             unicode: true,
+            model0: None,
         }
     }
 }
@@ -1459,7 +1462,7 @@ pub fn run(cfg: &Cfg, ops: &[Op], plan: &Plan) -> Exec {
         s.log_data = plan.log_data;
     }
     let ctr = Rc::new(Cell::new(0u32));
-    let model = Model::new(cfg.unicode);
+    let model = cfg.model0.as_ref().map(|m| (**m).clone()).unwrap_or_else(|| Model::new(cfg.unicode));
     let ex = Exec {
         outs: Vec::new(),
         expects: Vec::new(),
